@@ -198,10 +198,13 @@ def hashseed_outcome(pid, sc):
     digs = []
     try:
         for hs in seeds:
-            env = dict(os.environ, PYTHONHASHSEED=str(hs))
+            # an entry is a hash seed, optionally followed by ":O" (that interpreter runs with -O: asserts stripped, __debug__ False)
+            hs_, _, fl_ = str(hs).partition(":")
+            env = dict(os.environ, PYTHONHASHSEED=hs_)
+            env.pop("PYTHONOPTIMIZE", None)
             env["PYTHONPATH"] = VERIF + os.pathsep + env.get("PYTHONPATH", "")
-            p = subprocess.run([sys.executable, "-m", "dsim.engine", pid, "--scenario-digest", path], env=env, capture_output=True,
-                               text=True, timeout=600, cwd=VERIF)
+            p = subprocess.run([sys.executable] + (["-O"] if "O" in fl_ else []) + ["-m", "dsim.engine", pid, "--scenario-digest", path], env=env,
+                               capture_output=True, text=True, timeout=600, cwd=VERIF)
             lines = [ln for ln in p.stdout.splitlines() if ln.startswith("DIGEST ")]
             if p.returncode != 0 or not lines:
                 raise RuntimeError("fresh interpreter (PYTHONHASHSEED=%s) failed: %s" % (hs, (p.stderr or p.stdout)[-400:]))
@@ -212,11 +215,57 @@ def hashseed_outcome(pid, sc):
     if t0 != "-" or t1 != "-":        # an ordinary oracle fired in one of the interpreters: report that instead
         tags = [t for t in (t0 + "," + t1).split(",") if t and t != "-"]
         return ([(tags[0], "reported in a fresh interpreter (PYTHONHASHSEED %s / %s: %s / %s)" % (seeds[0], seeds[1], t0, t1))], d0)
+    if d0 != d1 and any(":O" in str(x_) for x_ in seeds):
+        return ([(tag, "same scenario, same random tapes: event-log digest %s in an ordinary interpreter and %s under python -O (interpreters %s): "
+                       "behaviour depends on assert statements / __debug__" % (d0, d1, seeds))], d0)
     if d0 != d1:
         return ([(tag, "same scenario, same random tapes: event-log digest %s under PYTHONHASHSEED=%s and %s under PYTHONHASHSEED=%s, each in a "
                        "fresh interpreter (something in the run iterates a set / dict keyed by strings whose order is the hash seed's)"
                        % (d0, seeds[0], d1, seeds[1]))], d0)
     return ([], d0)
+
+
+def optimised_pass(pid, mod, tier, seed, n):
+    """The first n run indices once more in a fresh interpreter started with -O (asserts stripped, __debug__ False) and once in an
+    ordinary fresh interpreter: an oracle that fires only under -O, or a differing event-log digest, is a violation (users do run
+    optimised interpreters; the replay file carries the pair of interpreters)."""
+    import subprocess
+    rows = {}
+    procs = {}
+    for flag in ("", "O"):
+        env = dict(os.environ, PYTHONHASHSEED="0")
+        env.pop("PYTHONOPTIMIZE", None)
+        env["PYTHONPATH"] = VERIF + os.pathsep + env.get("PYTHONPATH", "")
+        procs[flag] = subprocess.Popen([sys.executable] + (["-O"] if flag else []) + ["-m", "dsim.engine", pid, "--digests", str(n), "--tier", tier, "--workers", "6"],
+                                       env=env, stdout=subprocess.PIPE, stderr=subprocess.PIPE, text=True, cwd=VERIF)
+    for flag, pr in procs.items():
+        try:
+            so, se = pr.communicate(timeout=900)
+        except subprocess.TimeoutExpired:
+            for q in procs.values():
+                q.kill()
+            raise RuntimeError("fresh interpreter (%s) timed out" % (flag or "ordinary"))
+        if pr.returncode != 0:
+            raise RuntimeError("fresh interpreter (%s) failed: %s" % (flag or "ordinary", (se or so)[-400:]))
+        rows[flag] = {}
+        for ln in so.splitlines():
+            f = ln.split(" ")
+            if len(f) >= 3 and f[0].isdigit():
+                rows[flag][int(f[0])] = (f[1], f[3] if len(f) > 3 else "")
+    viols = []
+    for i in sorted(rows[""]):
+        if i not in rows["O"]:
+            continue
+        (d0, t0), (d1, t1) = rows[""][i], rows["O"][i]
+        if (t1 and not t0) or (d0 != d1 and not t0 and not t1):
+            sc = mod.gen(run_seed(seed, pid, i), tier)
+            sc.update(property=pid, verif_seed=seed, run=i, _hashseed_pair=["0", "0:O"], _hashseed_tag=pid + "/differs_under_python_O")
+            tag = t1.split(",")[0] if t1 else pid + "/differs_under_python_O"
+            viols.append((i, sc, [(tag, "world %d: %s under python -O; ordinary interpreter: digest %s tags %r, -O: digest %s tags %r" %
+                                   (i, "an oracle fires" if t1 else "another event log", d0, t0, d1, t1))]))
+            if len(viols) >= 2:
+                break
+    return {"viols": viols, "probes": {"runs_repeated_under_python_O": len(rows["O"])}}
 
 
 def isolated_tags(pid, sc):
@@ -416,6 +465,17 @@ def main(argv=None):
                 return EXIT_HARNESS
             # the main runs already hold violations: those are the result; the failed extra pass is noted, not allowed to hide them
             print("NOTE property=%s post_run did not complete: %s" % (pid, traceback.format_exc().strip().splitlines()[-1][:200]))
+            extra = {}
+        tot["viols"].extend(extra.get("viols", []))
+        _merge(tot["probes"], extra.get("probes", {}))
+    n_opt = getattr(mod, "OPTIMISED_PASS", {"quick": 60, "thorough": 600})[a.tier]
+    if n_opt and not a.runs:
+        try:
+            extra = optimised_pass(pid, mod, a.tier, seed, n_opt)
+        except Exception:
+            if not tot["viols"]:
+                print("HARNESS-ERROR property=%s optimised_pass: %s" % (pid, traceback.format_exc()))
+                return EXIT_HARNESS
             extra = {}
         tot["viols"].extend(extra.get("viols", []))
         _merge(tot["probes"], extra.get("probes", {}))
